@@ -302,14 +302,29 @@ class OpsMixin:
             if c >= 0:
                 return zmin(i, n)
             return zmax(n + c, z3.IntVal(0))
+        # when the path condition (its quantifier-free part) already settles the sign / the bound, use the plain index:
+        # the nested if-then-else form is equivalent but much harder on the string solvers
+        if self._entailed(i >= 0):
+            return i if self._entailed(i <= n) else zmin(i, n)
         return z3.If(i < 0, zmax(i + n, z3.IntVal(0)), zmin(i, n))
+
+    def _entailed(self, c):
+        pc = getattr(self, "_slice_pc", None)
+        if not pc:
+            return False
+        q = z3.Solver()
+        q.set("timeout", 300)
+        q.add(*[h for h in pc if not self._has_quant(h) and not self._big_regex(h)])
+        q.add(z3.Not(c))
+        return q.check() == z3.unsat
 
     def slice(self, s: Val, lo, hi) -> Val:
         n = z3.Length(s.t)
         lo_t = z3.IntVal(0) if lo is None else (lo[1] if isinstance(lo, tuple) else self.norm_index(lo, n))
         hi_t = n if hi is None else (hi[1] if isinstance(hi, tuple) else self.norm_index(hi, n))
-        ln = zmax(hi_t - lo_t, z3.IntVal(0))
-        return Val(s.ty, z3.simplify(z3.SubString(s.t, lo_t, ln)) if False else z3.SubString(s.t, lo_t, ln))
+        d = z3.simplify(hi_t - lo_t)
+        ln = d if self._entailed(d >= 0) else zmax(d, z3.IntVal(0))
+        return Val(s.ty, z3.SubString(s.t, lo_t, ln))
 
     # ---- equality --------------------------------------------------------------
     def eq(self, a: Val, b: Val):
